@@ -602,9 +602,8 @@ type Case17 struct {
 func genCase17(r *rng) *Case17 {
 	g := &gen17{r: r}
 	nv := r.intn(4)
-	for i := 0; i < nv; i++ {
-		g.vars = append(g.vars, string(rune('a'+i))+"1")
-	}
+	// names sharing prefixes / suffixes: identity must be decided by the full name
+	g.vars = append(g.vars, []string{"a1", "a11", "ab1"}[:nv]...)
 	c := &Case17{Share: r.chance(0.5), GC: []string{"sparse", "sparse", "dense", "none"}[r.intn(4)]}
 	d := 1 + r.intn(4)
 	switch r.intn(10) {
@@ -626,7 +625,7 @@ func genCase17(r *rng) *Case17 {
 		switch r.intn(7) {
 		case 4, 5, 6:
 			if len(g.vars) < 2 {
-				g.vars = []string{"a1", "b1"}
+				g.vars = []string{"a1", "a11"}
 			}
 			// a skeleton with repeated sub-terms, generalised twice
 			sk := g.top(d, false, false)
@@ -691,7 +690,7 @@ func genCase17(r *rng) *Case17 {
 			// pattern-vs-ground matching plus application of the substitution
 			c.Mode = "infer"
 			if len(g.vars) == 0 {
-				g.vars = []string{"a1", "b1"}
+				g.vars = []string{"a1", "a11"}
 			}
 			f := &T17{K: "fun", N: "f"}
 			np := 1 + r.intn(3)
@@ -786,6 +785,7 @@ type unifyOut struct {
 	Res   string            // canon of the returned type
 	Subst map[string]string // canon of every binding
 	raw   map[string]*T17
+	resT  *T17
 }
 
 func (u unifyOut) summary() string {
@@ -903,7 +903,8 @@ func doUnify(x, y *types.Type) (o unifyOut) {
 		return unifyOut{}
 	}
 	o.OK = true
-	o.Res = fromYae(u, 0).canon()
+	o.resT = fromYae(u, 0)
+	o.Res = o.resT.canon()
 	o.Subst = map[string]string{}
 	o.raw = map[string]*T17{}
 	for k, v := range m {
@@ -1037,6 +1038,11 @@ func runCase17(c *Case17) case17Result {
 					ft.vars(vs)
 					if vs[v] && !(ft.K == "var" && ft.N == v) {
 						return fail("law", "c17:unify-occurs", fmt.Sprintf("variable %s is bound to a type containing itself: %s", v, o.summary()))
+					}
+				}
+				if o.resT != nil {
+					if su, oku := applyFix(o.resT, o.raw); oku && su.canon() != sx.canon() {
+						return fail("law", "c17:unify-wrong-unifier", fmt.Sprintf("Unify succeeded but the type it returned, %s, is not the unified left-hand side s(x) = %s (subst %s)", su.canon(), sx.canon(), o.summary()))
 					}
 				}
 				if !compat(sx, sy) {
